@@ -15,25 +15,34 @@ ASSUMPTIONS = [
     'callers are verified against callee contracts, not bodies; each replaced callee is listed per unit and is itself a unit',
 ]
 
-NC_MUL = ('the digit product itself (RLC_MUL_DIG is abstracted by uninterpreted functions in the multiplication units: what is proved there is carry propagation, '
-          'accumulation, column placement, lengths, signs, normalisation and frames of bn_mul1/mula_low, bn_mul_dig, bn_mul_basic, and - up to 6 digits - bn_muln/muld_low, bn_mul_comba); '
-          'squaring, Karatsuba, division and everything built on them (bn_sqr*, bn_mul_karat, bn_div*, bn_mod*): not decidable by the installed back ends (DESIGN 2 P7, P21)')
+NC_MUL = ('the digit product itself (RLC_MUL_DIG is abstracted by uninterpreted functions in the multiplication and squaring units: what is proved there is carry propagation, '
+          'accumulation, doubling, column placement, lengths, signs, normalisation and frames of bn_mul1/mula_low, bn_mul_dig, bn_mul_basic, bn_sqrn_low, bn_sqr_comba and - up to 6 digits - bn_muln/muld_low, bn_mul_comba); '
+          'the digit-level division kernels bn_divn_low (Knuth D) and bn_div1_low: ASSUMED contracts returning an abstract quotient/remainder pair - the division API units prove the floor fix-up, '
+          'short cut, operands handed to the kernel, normal form, error reporting and aliasing AROUND them, not that Q*|b| + R == |a|; schoolbook squaring bn_sqr_basic/bn_sqra_low (multiplies in the C double-digit type), '
+          'Karatsuba (bn_mul_karat, bn_sqr_karat), the other reductions (bn_mod_barrt/monty/pmers): not decidable by the installed back ends (DESIGN 2 P7, P21)')
 PROPERTY_META = {
     'C01': dict(not_covered=NC_MUL + '; the 64-bit digit width for the API layer (verified at WSIZE=8, BN_PRECI=32: same sources, RLC_BN_SIZE=10; '
                 'only the digit loops bn_addn/subn/lsh1_low are additionally proved for all lengths in the shipped configuration, and bn_addn/subn/lsh1_low, dv_zero value contracts at the shipped width in the thorough tier); GMP/asm back ends; ALLOC=DYNAMIC',
                 assumptions=['RLC_MUL_DIG(H, L, A, B) computes the exact double-digit product A*B = H*2^W + L (multiplication units only; they use it through the one range fact PROD <= (B-1)^2, stated as an assumption inside the abstracted macro)',
                              'memcpy(p,p,n) leaves the bytes unchanged (bn_lsh/bn_rsh copy in place through dv_copy)',
                              'util_bits_dig on x86-64 is the lzcnt instruction behind a function pointer: its contract is enforced on the ARCH=none table implementation only']),
-    'C02': dict(not_covered='multiplication, squaring, Montgomery/special reduction, inversion, exponentiation, roots, Legendre symbol, conversions, fp_hlvd_low, '
-                'agreement between algorithm variants: number-theoretic identities modulo p outside the back ends (DESIGN 5 C02); other field sizes than the shipped 256 bits',
-                assumptions=['fp_prime_get() is replaced by a contract returning a ghost modulus: odd, > 2, of the configured digit length - every such p, not only primes']),
-    'C05': dict(not_covered='completeness (signer/verifier agreement), soundness of the verification equation (the arithmetic is abstract: only the guard logic of cp_ecdsa_ver, cp_ecss_ver, cp_bls_ver is claimed), RSA padding, '
-                'every other scheme (BBS, ZSS, CLS, PSS, vBNN, PoK/SoK, ring and homomorphic signatures), agreement with an independent implementation: these need the group/ring arithmetic of C03/C09'),
-    'C07': dict(not_covered='text conversion (bn_read_str/bn_write_str: needs division), field/extension-field/point/target-group encoders and decoders, compression; '
-                'bn_write_bin is verified at 8-bit digits only (64-bit: time-out), bn_read_bin at both; fp_read_bin/ep_read_bin: guards only (the conversion, decompression and curve-equation arithmetic are abstract)'),
+    'C02': dict(not_covered='multiplication beyond the row functions fp_mul1_low/fp_mula_low (digit product abstract), squaring, Montgomery/special reduction, the VALUES of inversion (only the zero-input guard of seven algorithms is covered; fp_inv_sim is not), '
+                'exponentiation, roots, Legendre symbol, conversions (fp_prime_conv/back are abstract where used), fp_hlvd_low, fp_add_dig/fp_sub_dig, '
+                'agreement between algorithm variants other than the BASIC/INTEG wrappers: number-theoretic identities modulo p outside the back ends (DESIGN 5 C02); other field sizes than the shipped 256 bits',
+                assumptions=['fp_prime_get() is replaced by a contract returning a ghost modulus: odd, > 2, of the configured digit length - every such p, not only primes',
+                             'RLC_MUL_DIG is the exact double-digit product (row units only)',
+                             'memcpy(p,p,n) leaves the bytes unchanged (in-place shapes of fp_hlv_basic, fp_norm, fp_copy)']),
+    'C05': dict(not_covered='completeness (signer/verifier agreement) and soundness of the verification equations: the arithmetic, pairings, hashes and - for cp_rsa_ver - the padding parser are ABSTRACT; what is claimed is the guard / data-flow logic of '
+                'cp_ecdsa_ver, cp_ecss_ver, cp_bls_ver, cp_rsa_ver (three padding configurations), cp_bbs_ver, cp_zss_ver, cp_pss_ver and - without the validity clauses the code lacks (named in the units) - cp_cls_ver, cp_cli_ver, cp_clb_ver, cp_psb_ver; '
+                'the PKCS#1 v1.5 parser pad_pkcs1 over byte-level model stubs up to 72-byte moduli; pad_pkcs2 (PSS), pad_basic, vBNN-IBS, PoK/SoK, ring and homomorphic signatures, every signer, agreement with an independent implementation: not covered'),
+    'C07': dict(not_covered='text conversion (bn_read_str/bn_write_str: needs division); value round trips (decode(encode(x)) = x) of field elements and points: the conversion, decompression, membership and curve-equation ARITHMETIC is abstract - '
+                'the decoder/encoder units prove lengths, tags, offsets, which object each validation was asked on, that it was asked after the last write and held, and that encoder and size function agree; '
+                'fp3/fp4/fp8/... and ep3/ep4/ep8 codecs, ep_pck/ep_upk themselves; bn_write_bin is verified at 8-bit digits only (64-bit: time-out), bn_read_bin at both; '
+                'point encoders accept len > advertised and zero-pad (observation, DESIGN 0.2)'),
     'C08': dict(not_covered='everything that is not a unit of C01/C02/C07/C09/C15 (curve, pairing, protocol and hash modules, simultaneous/batch functions, recodings other than '
                 'bn_rec_win, md_xmd); of cp_ecies_dec only the length/guard logic before the MAC comparison; ALLOC=DYNAMIC allocation-failure points; pointer arithmetic that leaves the object without a dereference is not flagged'),
-    'C09': dict(not_covered='every modular / number-theoretic function except bn_mod_2b and every recoding except bn_rec_win (bn_rec_slw/naf/tnaf/reg/jsf/glv/sac/frb; the NAF/regular recodings were tried and exhaust memory): '
+    'C09': dict(not_covered='every modular / number-theoretic function except bn_mod_2b and bn_mod_basic (the latter over the ASSUMED division kernel: range and sign of the residue, not Q*m + R == a) and every recoding except bn_rec_win '
+                '(bn_rec_reg: frame/length/error behaviour only; bn_rec_slw/naf/tnaf/jsf/glv/sac/frb: the NAF recoding was tried again and exhausts the object table, DESIGN P36): '
                 'their correctness rests on division/multiplication or was not reached'),
     'C14': dict(not_covered='the compression functions (SHA-2 rounds), SHA256FinalBits/Finalize/ResultN glue, BLAKE2s, md_xmd, AES-CBC/PKCS#7; HMAC and KDF/MGF are verified over an abstract hash for bounded lengths only: '
                 'digest and cipher values can only be compared with a second transcription of the standard, which is not a contract on one program; the wrappers were not reached'),
@@ -42,8 +51,8 @@ PROPERTY_META = {
                 assumptions=['reseed counter < 2^31 - 600 (the int counter does not overflow)', 'bn_mod_basic: ASSUMED contract |result| < |modulus| (division not verified)']),
     'C19': dict(not_covered='nesting shapes other than the enforced ones (one and three nested blocks without throw, throw in the inner of two blocks with a swallowing resp. re-throwing handler); the second return of setjmp is a scripted model (harness/err_shapes.c), not CBMC semantics; '
                 'per-thread contexts (MULTI build); re-parameterisation equals fresh initialisation'),
-    'C20': dict(not_covered='every ladder / regular-recoding algorithm except ep_mul_monty, bn_mxp_monty and ep_mul_lwreg with both workers (not: fp_exp_monty, bn_rec_reg itself, ed/eb/ep2 forms, gt_exp_sec); the callees of the ladder are trusted constant-time as units; '
-                'memory-address traces and what the compiler does to the source; goto-level branches only (a pure ?: or comparison expression counts as a select)'),
+    'C20': dict(not_covered='ep2_mul_reg_imp, ep2_mul_monty, the ep3/ep4/ep8 forms, gt_exp_sec / bn_rec_sac (observed NOT regular, DESIGN 0.2), fb_exp_monty, fp_inv_divst/jmpds; the callees of every ladder are trusted constant-time as units; '
+                'memory-address traces and what the compiler does to the source; goto-level branches only (a pure ?: or comparison expression counts as a select); ed_mul_monty: known finding (not regular)'),
 }
 
 _units = []
